@@ -1,14 +1,14 @@
 package main
 
 import (
-	"time"
-	"sync"
-	"sync/atomic"
 	"errors"
 	"fmt"
 	"math/big"
 	"net"
 	"strings"
+	"sync"
+	"sync/atomic"
+	"time"
 
 	"github.com/coredhcp/coredhcp/plugins/allocators"
 	"github.com/coredhcp/coredhcp/plugins/allocators/bitmap"
@@ -437,8 +437,8 @@ func (c *ctx) alloc6History(cfg pool6cfg, base *big.Int) {
 	order := uint(cfg.page - cfg.poolLen)
 	nblocks := new(big.Int).Lsh(big.NewInt(1), order)
 	unit := new(big.Int).Lsh(big.NewInt(1), uint(128-cfg.page))
-	var outst []string   // "iphex" of outstanding blocks (as returned)
-	var freed []string   // blocks that were freed at some point
+	var outst []string // "iphex" of outstanding blocks (as returned)
+	var freed []string // blocks that were freed at some point
 	steps := 20 + c.rng.Intn(3*int(min64(nblocks.Int64(), 400)))
 	allocBias := 5 + c.rng.Intn(5) // out of 10
 	randBlock := func() *big.Int {
